@@ -252,9 +252,9 @@ def r2_cache_copies(ctx) -> None:
 
 
 # ------------------------------------------------------------------------------------------ R3
-def r3_reset_complete(ctx) -> None:
+def r3_reset_complete(ctx, rid: str = "C15.R3") -> None:
     r, prog = ctx.r, ctx.prog
-    r.rule("C15.R3", "every init=False (per-rule) field of ProcessingPipeline is re-initialised with a fresh object at the top of apply(), before the first item is applied")
+    r.rule(rid, "every init=False (per-rule) field of ProcessingPipeline is re-initialised with a fresh object at the top of apply(), before the first item is applied")
     pq = "sigma.processing.pipeline.ProcessingPipeline"
     c = prog.cls(pq)
     per_rule: dict[str, ast.AnnAssign] = {}
@@ -285,18 +285,18 @@ def r3_reset_complete(ctx) -> None:
         fresh = [s for s in stores if _is_fresh(prog, ap, s.value)]
         nodes = [x for s in fresh for x in cfg.nodes_of(s)]
         if nodes and all(cfg.must_pass(ln, nodes) for ln in loop_nodes):
-            r.ok("C15.R3", ap.qual, f"self.{name} = {unparse(fresh[0].value)} before the item loop", f"{ap.module.relpath}:{fresh[0].lineno}")
+            r.ok(rid, ap.qual, f"self.{name} = {unparse(fresh[0].value)} before the item loop", f"{ap.module.relpath}:{fresh[0].lineno}")
         else:
             why = "is not re-initialised" if not stores else ("is re-initialised with a non-fresh object" if not fresh else "is not re-initialised on every path before the first item")
-            r.violation("C15.R3", ap.qual, f"reset of self.{name}",
+            r.violation(rid, ap.qual, f"reset of self.{name}",
                         f"per-rule field {name} (init=False) {why} at the start of apply(): state of the previous rule stays visible to the next one", loc)
     # nested pipelines go through the same apply()
     for q in ("sigma.processing.transformations.meta.NestedProcessingTransformation.apply",):
         f = prog.func(q)
         if any(isinstance(n, ast.Call) and call_name(n) == "self._nested_pipeline.apply" for n in walk_no_nested(f.node)):
-            r.ok("C15.R3", q, "nested pipeline is run through ProcessingPipeline.apply (same reset)", f.loc)
+            r.ok(rid, q, "nested pipeline is run through ProcessingPipeline.apply (same reset)", f.loc)
         else:
-            r.violation("C15.R3", q, "self._nested_pipeline.apply(rule)", "nested pipeline no longer goes through ProcessingPipeline.apply", f.loc)
+            r.violation(rid, q, "self._nested_pipeline.apply(rule)", "nested pipeline no longer goes through ProcessingPipeline.apply", f.loc)
     # nobody else resets/aliases the per-rule fields to shared objects
     for q, fi in sorted(prog.funcs.items()):
         if not fi.module.name.startswith("sigma."):
@@ -308,10 +308,10 @@ def r3_reset_complete(ctx) -> None:
                         recv = ctx.types.class_names(fi.module, t.value)
                         if pq in recv or (isinstance(t.value, ast.Attribute) and t.value.attr in ("_pipeline", "_nested_pipeline", "last_processing_pipeline")):
                             if _is_fresh(prog, fi, n.value):
-                                r.ok("C15.R3", q, unparse(n), f"{fi.module.relpath}:{n.lineno}")
+                                r.ok(rid, q, unparse(n), f"{fi.module.relpath}:{n.lineno}")
                             else:
-                                r.violation("C15.R3", q, unparse(n), f"per-rule pipeline field {t.attr} is bound to a non-fresh object outside apply()", f"{fi.module.relpath}:{n.lineno}")
-    r.floor("C15.R3", 6)
+                                r.violation(rid, q, unparse(n), f"per-rule pipeline field {t.attr} is bound to a non-fresh object outside apply()", f"{fi.module.relpath}:{n.lineno}")
+    r.floor(rid, 6)
 
 
 def _is_fresh(prog, fi: FuncInfo, v: Optional[ast.AST]) -> bool:
@@ -333,9 +333,9 @@ def _is_fresh(prog, fi: FuncInfo, v: Optional[ast.AST]) -> bool:
 
 
 # ------------------------------------------------------------------------------------------ R4
-def r4_class_attr_writes(ctx) -> None:
+def r4_class_attr_writes(ctx, rid: str = "C15.R4") -> None:
     r, prog = ctx.r, ctx.prog
-    r.rule("C15.R4", "every class attribute written at run time is saved before and restored in a finally of the same function on all exits (or is an idempotent derivation listed with its reason)")
+    r.rule(rid, "every class attribute written at run time is saved before and restored in a finally of the same function on all exits (or is an idempotent derivation listed with its reason)")
     n_sites = 0
     for q, fi in sorted(prog.funcs.items()):
         writes: list[tuple[ast.Attribute, ast.stmt]] = []
@@ -365,18 +365,18 @@ def r4_class_attr_writes(ctx) -> None:
                     rhs = st.value if isinstance(st, ast.Assign) else None
                     names = {unparse(x) for x in ast.walk(rhs) if isinstance(x, ast.Attribute)} if rhs is not None else set()
                     if rhs is not None and all(x.startswith("cls.") for x in names):
-                        r.ok("C15.R4", q, f"{short(st, 100)} — {ALLOWED_CLASS_ATTR_WRITES[key]}", loc)
+                        r.ok(rid, q, f"{short(st, 100)} — {ALLOWED_CLASS_ATTR_WRITES[key]}", loc)
                     else:
-                        r.violation("C15.R4", q, short(st, 120), "class attribute derived from per-instance/per-call data in __new__", loc)
+                        r.violation(rid, q, short(st, 120), "class attribute derived from per-instance/per-call data in __new__", loc)
                 else:
-                    r.ok("C15.R4", q, f"{short(st, 100)} — {ALLOWED_CLASS_ATTR_WRITES[key]}", loc)
+                    r.ok(rid, q, f"{short(st, 100)} — {ALLOWED_CLASS_ATTR_WRITES[key]}", loc)
                 continue
             in_final = any(_contains(t.finalbody, st) for t in tries)
             if in_final:
                 continue  # restores are judged from the swap side
             enclosing = [t for t in tries if _contains(t.body, st)]
             if not enclosing:
-                r.violation("C15.R4", q, short(st, 120),
+                r.violation(rid, q, short(st, 120),
                             f"class attribute {attr} is written at run time outside a try/finally that restores it: the change outlives the call and every later conversion by any instance sees it", loc)
                 continue
             t = enclosing[0]
@@ -386,14 +386,14 @@ def r4_class_attr_writes(ctx) -> None:
                     if isinstance(x, ast.Attribute) and isinstance(x.ctx, ast.Store) and x.attr == attr and unparse(x.value) == unparse(node.value if isinstance(node, ast.Attribute) else node.args[0]):
                         restored = fs
             if restored is None:
-                r.violation("C15.R4", q, short(st, 120), f"class attribute {attr} is swapped inside try but not restored in its finally", loc)
+                r.violation(rid, q, short(st, 120), f"class attribute {attr} is swapped inside try but not restored in its finally", loc)
                 continue
             # the restored value must come from a save taken before the try
             saved_ok = _restore_uses_saved(prog, fi, t, restored, attr)
             if saved_ok is None:
-                r.ok("C15.R4", q, f"{attr}: saved before try, swapped in try, restored in finally", loc)
+                r.ok(rid, q, f"{attr}: saved before try, swapped in try, restored in finally", loc)
             else:
-                r.violation("C15.R4", q, short(restored, 140), f"restore of {attr} {saved_ok}", f"{fi.module.relpath}:{restored.lineno}")
+                r.violation(rid, q, short(restored, 140), f"restore of {attr} {saved_ok}", f"{fi.module.relpath}:{restored.lineno}")
         # yield of a context manager must be inside the try (so that an exception in the with-body restores)
         if any("contextmanager" in d for d in fi.decorators) and tries:
             for y in (n for n in walk_no_nested(fi.node) if isinstance(n, (ast.Yield, ast.YieldFrom))):
@@ -402,18 +402,18 @@ def r4_class_attr_writes(ctx) -> None:
                 swap_active = any(_contains(t.body, yst) for t in tries)
                 before_swap = not any(isinstance(n, ast.Attribute) and isinstance(n.ctx, ast.Store) for t in tries for b in t.body for n in ast.walk(b))
                 if swap_active:
-                    r.ok("C15.R4", q, "yield inside the try whose finally restores", f"{fi.module.relpath}:{y.lineno}")
+                    r.ok(rid, q, "yield inside the try whose finally restores", f"{fi.module.relpath}:{y.lineno}")
                 else:
                     # a yield outside the try is fine only if no swap has happened on that path
                     cfg = cfg_of(fi)
                     swap_nodes = [x for node, st in writes for x in cfg.nodes_of(st) if not any(_contains(t.finalbody, st) for t in tries)]
                     reach_after_swap = any(cfg.paths_exist(sn, yn) for sn in swap_nodes for yn in cfg.nodes_of(yst))
                     if reach_after_swap:
-                        r.violation("C15.R4", q, stmt_head(yst), "yield reachable after the swap but outside the try/finally: an exception in the with-body leaves the swapped class attributes in place", f"{fi.module.relpath}:{y.lineno}")
+                        r.violation(rid, q, stmt_head(yst), "yield reachable after the swap but outside the try/finally: an exception in the with-body leaves the swapped class attributes in place", f"{fi.module.relpath}:{y.lineno}")
                     else:
-                        r.ok("C15.R4", q, "yield outside try not reachable after a swap", f"{fi.module.relpath}:{y.lineno}")
+                        r.ok(rid, q, "yield outside try not reachable after a swap", f"{fi.module.relpath}:{y.lineno}")
     r.analysed["C15.class_attribute_write_sites"] = n_sites
-    r.floor("C15.R4", 10)
+    r.floor(rid, 10)
 
 
 def _contains(body: list[ast.stmt], st: ast.AST) -> bool:
